@@ -175,12 +175,27 @@ def run_flask(ctx):
             seen.append(current_token._get_current_object())
             return jsonify(ok=True)
 
+        # a second acquisition inside the same request, with requirements of its own (step-up), optionally after the token was revoked
+        required2 = rng.choice(reqs)
+        revoke_between = rng.random() < 0.25
+        inner = []
+
+        @app.route("/s")
+        @rp(required)
+        def s_():
+            if revoke_between and store.get("tok") is not None:
+                store["tok"].revoked = True
+            with rp.acquire(required2) as t2:
+                inner.append(t2)
+                return jsonify(ok=True)
+
         headers = {} if auth is None else {"Authorization": auth}
         # werkzeug refuses control characters in header values on the client side
         if auth is not None and any(ord(c) < 32 and c != "\t" for c in auth):
             continue
         with app.test_client() as c:
             resp = c.get("/r", headers=headers)
+            resp2 = c.get("/s", headers=headers)
         if resp.status_code == 200:
             got = ["serve", "tok" if seen and seen[0] is store.get("tok") else "?"]
         else:
@@ -197,6 +212,23 @@ def run_flask(ctx):
         ctx.compare("flask-decorator", case, got, mod)
         if got[0] == "escapes":
             ctx.violation("C10:flask:escapes", "Flask resource protector answered with an unexpected status", case)
+        # step-up: served only if the first AND the second acquisition would each be served on their own; a refusal is the first one's,
+        # else the second one's
+        if resp2.status_code == 200:
+            got2 = ["serve", "tok" if inner and inner[0] is store.get("tok") else "?"]
+        else:
+            try:
+                got2 = ["refuse", resp2.status_code, resp2.get_json()["error"]]
+            except Exception:
+                got2 = ["escapes", str(resp2.status_code)]
+        mstore2 = {} if st is None else {"tok": {"expired": st[0], "revoked": st[1] or revoke_between, "scope": scope}}
+        second = m.call("validate_request", {"types": ["bearer"], "store": mstore2, "auth": mauth, "required": required2})
+        want2 = mod if mod[0] != "serve" else second
+        case2 = dict(case, required_inner=required2, revoked_between=revoke_between)
+        ctx.case(case2, ("flask-stepup", auth, str(st), json.dumps(scope), json.dumps(required), json.dumps(required2), revoke_between), "flask-stepup:" + got2[0])
+        ctx.compare("flask-step-up", case2, got2, want2)
+        if got2[0] == "serve" and want2[0] != "serve":
+            ctx.violation("C10:flask:step-up-served", "a second acquisition in the same request was served although its own requirements (or the token's state) refuse it", case2)
 
 
 # ------------------------------------------------------------------ RFC 9068
